@@ -11,7 +11,9 @@ sm = VerusUnit('c03_statemodel', 'c03_statemodel', rlimit=60)
 ew = KaniUnit("c11_extend_wit", CORE, modules=[dict(file=CORE + "/src/model/state/state_model.rs", src="c11_extend_wit.rs")], harnesses=[])
 ew.native_witnesses = ["c11_wit_extend_overrides_in_place", "c11_wit_extend_by_nothing_is_identity"]
 ex = VerusUnit("c11_extend", "c11_extend", rlimit=30, paired_kani=(ew, []))
-UNITS = [v_unit, sm, ex, k_unit, ew]
+cw = KaniUnit("c11_collect_wit", "routee-compass", modules=[dict(file="routee-compass/src/app/search/search_app_ops.rs", src="c11_collect_wit.rs")], harnesses=[])
+cw.native_witnesses = ["c11_wit_query_declarations_come_after_the_models_features"]
+UNITS = [v_unit, sm, ex, k_unit, ew, cw]
 EXPLANATION = ("CompactOrderedHashMap::{empty,len,is_empty,contains_key,get,get_index,insert} extracted verbatim and verified by Verus at every size "
                "against an abstract (slot map, value map) view with a whole-view postcondition for insert; representation invariant: slots < len, pairwise distinct; "
                "StateModel::extend (verbatim, Verus, any number of entries): the per-query model is the configured container with every declared (name, feature) inserted in order -- an existing name keeps its slot "
